@@ -97,7 +97,14 @@ impl SocketRecv for RouterSocket {
 #[async_trait]
 impl SocketSend for RouterSocket {
     async fn send(&mut self, mut message: ZmqMessage) -> ZmqResult<()> {
-        assert!(message.len() > 1);
+        if message.len() < 2 {
+            // An identity frame and at least one more frame are needed. The message may
+            // come straight from a peer (`proxy` forwards what it receives), so a short
+            // one is an error to report, not a reason to panic.
+            return Err(ZmqError::Other(
+                "ROUTER messages need an identity frame followed by at least one more frame",
+            ));
+        }
         let peer_id: PeerIdentity = message.pop_front().unwrap().try_into()?;
         match self.backend.peers.get_async(&peer_id).await {
             Some(mut peer) => {
